@@ -14,6 +14,8 @@ const RACE_DELAY: Duration = Duration::from_millis(200);
 /// against each other and the first to connect successfully wins the race.
 pub fn connect(host: &Host<&str>, port: u16, timeout: Duration, deadline: Option<Instant>) -> io::Result<TcpStream> {
     let addrs: Vec<_> = match *host {
+        #[cfg(feature = "verif-hooks")]
+        Host::Domain(domain) if crate::verif::has_resolution(domain) => crate::verif::resolve(domain, port),
         Host::Domain(domain) => (domain, port).to_socket_addrs()?.collect(),
         Host::Ipv4(ip) => return TcpStream::connect_timeout(&(IpAddr::V4(ip), port).into(), timeout),
         Host::Ipv6(ip) => return TcpStream::connect_timeout(&(IpAddr::V6(ip), port).into(), timeout),
@@ -58,8 +60,16 @@ pub fn connect(host: &Host<&str>, port: u16, timeout: Duration, deadline: Option
     // connection attempt is successful.
     for &addr in sorted {
         let tx = tx.clone();
+        #[cfg(feature = "verif-hooks")]
+        crate::verif::sched_point("he.spawn", crate::verif::addr_detail(&addr));
+        #[cfg(feature = "verif-hooks")]
+        let verif_ctx = crate::verif::inherit();
 
         thread::spawn(move || {
+            #[cfg(feature = "verif-hooks")]
+            let _verif_guard = verif_ctx.enter("he.attempt");
+            #[cfg(feature = "verif-hooks")]
+            crate::verif::sched_point("he.attempt.begin", crate::verif::addr_detail(&addr));
             debug!("trying to connect to {}", addr);
 
             let res = match deadline.map(|deadline| deadline.checked_duration_since(Instant::now())) {
@@ -68,10 +78,16 @@ pub fn connect(host: &Host<&str>, port: u16, timeout: Duration, deadline: Option
                 Some(None) => Err(io::ErrorKind::TimedOut.into()),
             };
 
+            #[cfg(feature = "verif-hooks")]
+            crate::verif::sched_point("he.attempt.result", res.is_ok() as i64);
             let _ = tx.send((addr, res));
+            #[cfg(feature = "verif-hooks")]
+            crate::verif::sched_point("he.attempt.sent", crate::verif::addr_detail(&addr));
         });
 
         if let Ok((addr, res)) = rx.recv_timeout(RACE_DELAY) {
+            #[cfg(feature = "verif-hooks")]
+            crate::verif::sched_point("he.wait.got", crate::verif::addr_detail(&addr));
             if let Some(sock) = handle_res(addr, res) {
                 return Ok(sock);
             }
@@ -81,11 +97,15 @@ pub fn connect(host: &Host<&str>, port: u16, timeout: Duration, deadline: Option
     // We must drop this handle to the sender in order to properly disconnect the channel
     // when all the threads are finished.
     drop(tx);
+    #[cfg(feature = "verif-hooks")]
+    crate::verif::sched_point("he.drain.begin", 0);
 
     // This loop waits for replies from the background threads. It will automatically timeout
     // when the background threads' connection attempts timeout and the senders are dropped.
     // This loop is reached when some of the threads do not complete within the race delay.
     for (addr, res) in rx.iter() {
+        #[cfg(feature = "verif-hooks")]
+        crate::verif::sched_point("he.drain.got", crate::verif::addr_detail(&addr));
         if let Some(sock) = handle_res(addr, res) {
             return Ok(sock);
         }
